@@ -20,7 +20,7 @@ pub fn all_sites_mask() -> u128 {
 /// Synthesise a block-escape family around block index `anchor` (neighbours in name order
 /// have similar names, which is what a wrongly keyed cache of the process-wide table
 /// would confuse).
-fn synth_block_family(rng: &mut Rng, anchor: usize) -> Family {
+fn synth_block_family(rng: &mut Rng, anchor: usize, near_miss_pct: u64) -> Family {
     let b = blocks();
     let near = |rng: &mut Rng| -> usize {
         if rng.chance(75, 100) {
@@ -30,7 +30,20 @@ fn synth_block_family(rng: &mut Rng, anchor: usize) -> Family {
         }
     };
     let (ia, ib) = (near(rng), near(rng));
-    let (a, bb) = (&b[ia], &b[ib]);
+    let (a0, bb) = (&b[ia], &b[ib]);
+    // now and then a near-miss spelling of the name (the table knows names with spaces and
+    // underscores removed only): an error path that goes through the same table
+    let a_name = if rng.chance(near_miss_pct, 100) && a0.0.len() > 3 {
+        let cs: Vec<char> = a0.0.chars().collect();
+        let at = 1 + rng.below(cs.len() - 1);
+        let mut s: String = cs[..at].iter().collect();
+        s.push(if rng.chance(50, 100) { '_' } else { ' ' });
+        s.extend(cs[at..].iter());
+        s
+    } else {
+        a0.0.clone()
+    };
+    let a = &(a_name, a0.1, a0.2);
     let ch = |cp: u32| char::from_u32(cp).unwrap_or('?');
     let p = match rng.below(6) {
         0 => format!("\\p{{Is{}}}+", a.0),
@@ -65,7 +78,7 @@ fn synth_block_family(rng: &mut Rng, anchor: usize) -> Family {
 
 fn pick_family(rng: &mut Rng, blocky: bool, anchor: usize) -> Family {
     if (blocky && rng.chance(60, 100)) || (!blocky && rng.chance(4, 100)) {
-        return synth_block_family(rng, anchor);
+        return synth_block_family(rng, anchor, if blocky { 25 } else { 10 });
     }
     if !blocky && rng.chance(14, 100) {
         return crate::astgen::family(rng);
